@@ -296,9 +296,11 @@ def qcon_def(kind):
 
 # ---------------------------------------------------------------------------------- orthogonality: BOUNDED
 @harness('C07', 'bounded/orthogonality', kind='bounded', seeds=1,
-         variants=['zernike-disk', 'jacobi-weight', 'qbfs-slopes', 'hermite-laguerre-weights'],
+         variants=['zernike-disk', 'jacobi-weight', 'qbfs-slopes', 'q2d-slopes', 'families-vs-scipy', 'hermite-laguerre-weights'],
          fuc=['prysm.polynomials.zernike.zernike_nm', 'prysm.polynomials.jacobi.jacobi', 'prysm.polynomials.qpoly.Qbfs',
-              'prysm.polynomials.hermite.hermite_He', 'prysm.polynomials.hermite.hermite_H', 'prysm.polynomials.laguerre.laguerre'])
+              'prysm.polynomials.hermite.hermite_He', 'prysm.polynomials.hermite.hermite_H', 'prysm.polynomials.laguerre.laguerre',
+              'prysm.polynomials.qpoly.Q2d', 'prysm.polynomials.qpoly.Q2d_seq', 'prysm.polynomials.laguerre.laguerre_seq',
+              'prysm.polynomials.jacobi.jacobi_seq', 'prysm.polynomials.hermite.hermite_He_seq', 'prysm.polynomials.hermite.hermite_H_seq'])
 def orthogonality(which):
     """BOUNDED (a theorem about the definitions, checked on the real functions by exact Gauss quadrature, not proved):
     Zernike unit RMS / mutual orthogonality over the unit disk for n <= 8 (quick) / 14; Jacobi-family orthogonality under
@@ -345,6 +347,70 @@ def orthogonality(which):
         G = np.einsum('ia,ja,a->ij', S, S, ww) * 2 / np.pi
         check('slope-orthonormal', bool(np.allclose(G, np.eye(nmax + 1), atol=1e-5)))
         note('bounded: Qbfs slope orthonormality n <= %d (central differences, Gauss-Chebyshev quadrature)' % nmax)
+    elif which == 'q2d-slopes':
+        # Forbes (Opt. Express 20, 2483): for fixed m, <grad Q_n^m . grad Q_n'^m> = delta_nn' under the Chebyshev-weighted mean
+        # (1/2pi) int dtheta (2/pi) int_0^1 . (1-u^2)^(-1/2) du.  With Q = R(u) cos(m theta): k (2/pi) int_0^1 (R'R'' + m^2 R R''/u^2)/sqrt(1-u^2),
+        # k = 1/2 (m != 0) or 1.  R is a polynomial: recovered exactly by interpolation, integrated exactly by Gauss-Chebyshev.
+        from numpy.polynomial import polynomial as Pn
+        nmax = 9 if big else 6
+        Q2d, Q2d_seq = get('prysm.polynomials.qpoly.Q2d'), get('prysm.polynomials.qpoly.Q2d_seq')
+        K = 96
+        kk = np.arange(1, K + 1)
+        nodes = np.cos((2 * kk - 1) * np.pi / (2 * K))
+
+        def radial(ev, n, m):
+            deg = abs(m) + 2 * n + (4 if m == 0 else 0)
+            xs = np.cos(np.pi * (np.arange(deg + 1) + .5) / (deg + 1))
+            tt = np.zeros_like(xs) if m >= 0 else np.full_like(xs, np.pi / (2 * abs(m)))
+            return Pn.polyfit(xs, ev(n, m, xs, tt), deg)
+        single = lambda n, m, u, t: Q2d(n, m, u, t)
+        seq = lambda n, m, u, t: Q2d_seq([(i, m) for i in range(n + 1)], u, t)[n]
+        ok = True
+        for m in (0, 1, -1, 2, 3, -3, 4, 6):
+            for ev in (single, seq):
+                polys = [radial(ev, n, m) for n in range(nmax + 1)]
+                G = np.empty((nmax + 1, nmax + 1))
+                for i, ci in enumerate(polys):
+                    for j, cj in enumerate(polys):
+                        integrand = Pn.polyval(nodes, Pn.polyder(ci)) * Pn.polyval(nodes, Pn.polyder(cj)) + \
+                            m * m * Pn.polyval(nodes, ci) * Pn.polyval(nodes, cj) / nodes ** 2
+                        G[i, j] = integrand.sum() / K * (1 if m == 0 else .5)
+                ok = ok and bool(np.allclose(G, np.eye(nmax + 1), atol=1e-7))
+        check('slope-orthonormal', ok)
+        note('bounded: 2D-Q slope orthonormality n <= %d, m in {0, +-1, 2, +-3, 4, 6}, Q2d and Q2d_seq (exact interpolation + Gauss-Chebyshev)' % nmax)
+    elif which == 'families-vs-scipy':
+        # an independent implementation of the same textbook definitions (scipy.special), for the scalar and the sequence form of
+        # each family, on dense, gapped, late-starting and single-order lists
+        import scipy.special as sp
+        rng = np.random.default_rng(7)
+        x = rng.uniform(-0.95, 0.95, 9)
+        P = 'prysm.polynomials.'
+        lists = [[0], [1], [2], [3], [0, 1], [0, 2], [1, 3], [0, 1, 3, 5], [3, 5], [0, 1, 2, 3, 4, 5, 6, 7], [4], [0, 1, 4, 9]]
+        ok = {}
+        for ns in lists:
+            for a, b in ((0.0, 0.0), (-0.5, -0.5), (1.5, 2.0), (-0.25, -0.75), (0.3, -0.3)):
+                want = [sp.eval_jacobi(n, a, b, x) for n in ns]
+                ok['jacobi'] = ok.get('jacobi', True) and bool(np.allclose(list(get(P + 'jacobi.jacobi_seq')(ns, a, b, x)), want, rtol=1e-9, atol=1e-9)) \
+                    and bool(np.allclose([get(P + 'jacobi.jacobi')(n, a, b, x) for n in ns], want, rtol=1e-9, atol=1e-9))
+            for al in (0.0, 0.5, 2.0):
+                want = [sp.eval_genlaguerre(n, al, x + 1) for n in ns]
+                ok['laguerre'] = ok.get('laguerre', True) and bool(np.allclose(list(get(P + 'laguerre.laguerre_seq')(ns, al, x + 1)), want, rtol=1e-9, atol=1e-9)) \
+                    and bool(np.allclose([get(P + 'laguerre.laguerre')(n, al, x + 1) for n in ns], want, rtol=1e-9, atol=1e-9))
+            for nm, fs, ev in (('hermite_He', 'hermite.hermite_He', sp.eval_hermitenorm), ('hermite_H', 'hermite.hermite_H', sp.eval_hermite),
+                               ('legendre', 'legendre.legendre', sp.eval_legendre), ('cheby1', 'cheby.cheby1', sp.eval_chebyt),
+                               ('cheby2', 'cheby.cheby2', sp.eval_chebyu)):
+                want = [ev(n, x) for n in ns]
+                ok[nm] = ok.get(nm, True) and bool(np.allclose(list(get(P + fs + '_seq')(ns, x)), want, rtol=1e-9, atol=1e-9)) \
+                    and bool(np.allclose([get(P + fs)(n, x) for n in ns], want, rtol=1e-9, atol=1e-9))
+        for k_, v_ in sorted(ok.items()):
+            check(k_ + '-scalar-and-sequence-forms-equal-scipy', v_)
+        # first Jacobi recurrence step for alpha + beta in {0, -1} with alpha != beta (the special-cased n = 0 coefficients)
+        abc = get(P + 'jacobi.recurrence_abc')
+        good = True
+        for a, b in ((-0.25, -0.75), (-0.9, -0.1), (0.3, -0.3), (-0.5, -0.5), (0.5, -0.5)):
+            A, B, C = abc(0, a, b)
+            good = good and bool(np.allclose(A * x + B, sp.eval_jacobi(1, a, b, x), rtol=1e-12, atol=1e-12))
+        check('jacobi-first-recurrence-step', good)
     else:
         nmax = 14 if big else 8
         He, Hh, Lg = get('prysm.polynomials.hermite.hermite_He'), get('prysm.polynomials.hermite.hermite_H'), get('prysm.polynomials.laguerre.laguerre')
